@@ -445,7 +445,26 @@ def rule_history(facts):
                 v = pta.at(pb_.idx, None).of_operand(pb_.term.args[1])
                 if any(q[0] == "call" and q[1].endswith(("Index>::index", "Index::index")) and pat.has_field(q, "buf") for q in _sub(v)):
                     ok_push = True
-            if ok_init and ok_step and ok_push:
+            # the same copy spelt with the round counter: buf[(len - dist) + i] for i = 0, 1, ... (len taken before the loop)
+            ok_counter = False
+
+            def lfk(n, d, k):
+                base = lf(n, d)
+
+                def f(q):
+                    if pat.has_call(q, "::next") and q[0] in ("field", "as", "okp", "ok"):
+                        return k
+                    return base(q)
+                return f
+            for it_ in idxs:
+                try:
+                    if all(pat.eval_term(it_, lfk(n, d, k)) == n - d + k for n in (5, 77) for d in (1, 5) for k in (0, 1, 4)):
+                        ok_counter = True
+                except (pat.NotEvaluable, pat.Overflow):
+                    pass
+            if ok_counter and ok_push and not steps:
+                r.ok("evaluation", {"append_lz": "push(buf[(len - dist) + i]) for i in 0..len"})
+            elif ok_init and ok_step and ok_push:
                 r.ok("evaluation", {"append_lz": "offset = len - dist; push(buf[offset]); offset += 1"})
             else:
                 r.bad("accum|append_lz", "the accumulating window's copy is not `offset = len - dist; repeat { push(buf[offset]); offset += 1 }` "
